@@ -218,6 +218,14 @@ def oracle_reactor(ctx, rng, n):
         if rng.random() < 0.3:
             case['setup']['axial_plane'] = [round(rng.uniform(0.01, case['core']['length'] * 0.99), 6) for _ in range(rng.randint(1, 3))]
         case['core']['bypass_fraction'] = round(10 ** rng.uniform(-7, -1.5), 9)
+        if ci % 3 == 2:
+            # several assemblies of a type asked for the same outlet temperature / temperature rise at different powers
+            # (their flow rates, hence their step limits, differ)
+            bc = rng.choice(['outlet_temp', 'delta_temp'])
+            val = round(rng.uniform(80, 160), 2)
+            for a in case['assignment']:
+                a.pop('flowrate', None)
+                a[bc] = val + (case['core']['coolant_inlet_temp'] if bc == 'outlet_temp' else 0.0)
         d = str(ctx.work / ("m%d" % ci))
         try:
             inp, r = with_timeout(lambda: gi.build_reactor(case, d), 60)
@@ -247,6 +255,18 @@ def oracle_reactor(ctx, rng, n):
         why = mesh_defect(z, b, units(r.req_dz), units(r.core_length))
         if not why and float(np.max(r.dz)) > lim * (1 + 1e-9) + 1e-12:
             why = "step: largest step %.9g exceeds the smallest stability requirement %.9g" % (np.max(r.dz), lim)
+        if not why:
+            # the same against limits recomputed here, assembly by assembly, with the real limit functions (the list the
+            # Reactor keeps is not trusted)
+            import dassh.assembly as DA
+            try:
+                lim2 = min(float(DA.calculate_min_dz(a, r.inlet_temp, a._estimated_T_out, r._is_adiabatic)[0]) for a in r.assemblies)
+                ctx.count("independent_limit_checks")
+                if float(np.max(r.dz)) > lim2 * (1 + 1e-9) + 1e-12:
+                    why = ("step: largest step %.9g exceeds the stability requirement %.9g recomputed assembly by assembly"
+                           % (np.max(r.dz), lim2))
+            except (SystemExit, KeyError, TypeError, IndexError, ValueError, ZeroDivisionError):
+                ctx.count("independent_limit_not_evaluable")
         if why:
             ctx.violation("c05-mesh:" + why.split(":")[0], "axial planes of a real Reactor violate the property: " + why,
                           case=case)
